@@ -107,12 +107,12 @@ Section Check.
     | GUnmarshalNotifs _ o cur ns out post =>
         let '(t', r) := unmarshal_notifs env fo ko sch o cur ns in
         sr_out_eqb r out && post_ok t' post
-    | GGet _ o t p out => result_eqb (same_elems gnode_eqb) (get_node env ko o sch t p) out
+    | GGet _ o t p out => result_eqb (same_elems gnode_eqb) (get_node env fo ko o sch t p) out
     | GSet _ o t p v out post =>
         let '(t', r) := set_node_st env fo ko o v sch t p in
         result_eqb unit_eqb r out && post_ok t' post
     | GDel _ sh t p out post =>
-        let '(t', r) := delete_node_st env ko sh sch t p in
+        let '(t', r) := delete_node_st env fo ko sh sch t p in
         result_eqb unit_eqb r out && post_ok t' post
     | GKeyStr _ v out => result_eqb str_eqb (key_to_string env ko v) out
     | GStrKey _ ty s out =>
